@@ -76,6 +76,36 @@ TEXT = {
   level="Exploration over histories and schedules: every single-thread op sequence up to a depth bound over a parent with a Slot and a LazySlot (open wait/discard incl. second open, mutate, drop guard, wait_for_data, force-flush guard) is executed and the appended entries compared with the reference after every op; concurrently, parent / guards / force guard are dropped on separate threads with perturbation between the guard's send and the release of its flush guard.",
   note="Trusted: counting sink; linearization-invariant assertions only in the concurrent part.",
   ref="DESIGN.md §7 C13"),
+ "C07": dict(
+  technique="runtime monitoring over generated programs: the real proc-macro compiles generated type trees, their emitted items are compared with an independent naming reference",
+  level="Translation validation over programs: each run generates hundreds (thorough: thousands) of #[metrics] type trees covering every attribute combination of the statement, has the real macro compile them, runs them, and compares the ordered (name, value, unit, kind) items and the sample group of every closed root with a reference built on the Inflector crate. Known finding F8 (sample-group keys lack flatten prefixes) is matched by an exact signature and reported as KNOWN-FINDING.",
+  note="Trusted: the naming reference and Inflector; rustc/cargo; the recording writer. Programs that do not compile are inconclusive.",
+  ref="DESIGN.md §7 C07"),
+ "C15": dict(
+  technique="runtime monitoring: differential of recorded call logs, plain entry vs wrapped entry, against the documented effect of each wrapper",
+  level="Exploration over inputs: generated entries (incl. errors, empty values, repeated names, configs, sample groups) under random compositions (depth <= 4) of boxed/Box/Option/Arc/Cow/merge/WithGlobalDimensions/WithDimensions/ForceFlag, values nested in Option/Box/Arc/Cow/&/WithDimensions/ForceFlag to depth 3, the stream/format adapters, RootEntry; ordered call log and sample group must equal the documented function of the plain entry's.",
+  note="Trusted: recording writer; the expected-effect functions in checks/src/bin/c15_wrappers.rs.",
+  ref="DESIGN.md §7 C15"),
+ "C17": dict(
+  technique="runtime monitoring: op histories dispatched to threads/runtimes vs a reference routing state machine; racing appends vs detach with an exactly-one oracle; TSan",
+  level="Exploration over histories and schedules: random histories of attach / detach / thread-local and runtime test sinks / append / try_append / sink() on 3 worker threads x {no runtime, 2 runtimes}, every outcome (destination, documented panic, entry handed back) compared with the reference; appends racing with the detach of a BackgroundQueue-backed attachment must be Ok <=> written before the detach returned.",
+  note="Trusted: the reference state machine; counting sinks; recording stream of the detached queue.",
+  ref="DESIGN.md §7 C17"),
+ "C18": dict(
+  technique="runtime monitoring: exhaustive and random op sequences on a manually advanced clock vs a sequential reference after every prefix",
+  level="Exploration over histories: every stopwatch op sequence up to length 8 (thorough 9) with owned and borrowed guards, plus random sequences up to length 200, checked after every prefix; timers, timestamps in three epoch units, and the time-source resolution order.",
+  note="Trusted: ManuallyAdvancedTimeSource; the reference total (sum of completed, non-discarded spans since the last clear/overwrite).",
+  ref="DESIGN.md §7 C18"),
+ "C19": dict(
+  technique="runtime monitoring: every convertible unit pair (macro-generated table) against an independent scale table, through recorded ValueWriter calls",
+  level="Exhaustive over the 435 ordered pairs of convertible units (the table is complete by construction: other pairs do not compile) x extreme and random magnitudes of all observation kinds; also the #[metrics(unit=..)] attribute through generated structs, Duration/Option/Distribution/Mean and the two error cases (incl. identity conversions).",
+  note="Trusted: the harness scale table; 4-ulp tolerance for 'floating-point rounding'.",
+  ref="DESIGN.md §7 C19"),
+ "C20": dict(
+  technique="runtime monitoring: conservation oracle over all readouts (tight reader + real reporter task + final) of concurrently updated metrics; Miri + TSan",
+  level="Exploration over schedules and histories: 1-12 updater threads with known scripts on 1-20 keys, concurrent readouts from a reader loop and the real MetricReporter task; counters sum to the total, histogram occurrences equal observations within bucket error, gauges end at the last value, names/labels/units as registered.",
+  note="Trusted: recording writer for readouts; one writer per gauge.",
+  ref="DESIGN.md §7 C20"),
 }
 
 NOT_YET = "check not built yet in this round (design in DESIGN.md §7); not claimed"
